@@ -213,6 +213,13 @@ for e in ENC:
         else:
             # maximum-size round trips cost ~8 min each: thorough only
             enc_harness("C01", e, own="own", tier="t" if (e["big"] and e["short"] != "vendor_pci247") else None)
+# exact-fit buffers with a concrete capacity (see enc::run_fit)
+FIT = {"req_routing1": "C06", "req_routing7": "C06", "req_set_eid": "C06", "resp_msgtypes3": "C07", "resp_msgtypes30": "C07",
+       "resp_vendor7": "C07", "resp_get_uuid": "C07", "vendor_pci4": "C08", "vendor_iana4": "C08", "raw_spdm_h3_4": "C08"}
+for e in ENC:
+    if e["short"] in FIT:
+        for pid, own in [(FIT[e["short"]], "ign"), ("C16", "own"), ("C03", "ign")]:
+            add("%s__q__%s_fit" % (pid.lower(), e["short"]), e["buf"] + 4, own, "enc::run_fit::<_, %s, %s, %d>" % (pid, e["ty"], e["buf"]))
 for a in (0, 1):
     for b in (0, 1):
         add("c07__q__resp_eid_twice_%d%d" % (a, b), 40, "ign", "enc::resp_eid_twice::<_, C07, %d, %d>" % (a, b))
